@@ -77,7 +77,7 @@ def createOperand (s : Str) (row : InstrRow) : R Operand :=
           if s.head? == some '$' && s.length > 3 then
             (numericOfInt i none .extended).map (fun nv => { kind := .pseudo, text := s, value := nv })
           else if v.hexLen? == some 2 then
-            (numericOfInt i none .direct).map (fun nv => { kind := .pseudo, text := s, value := nv })
+            (numericOfInt (if v.isNegative then -(i : Int) else i) none .direct).map (fun nv => { kind := .pseudo, text := s, value := nv })
           else .ok { kind := .pseudo, text := s, value := v }
       else .ok { kind := .pseudo, text := s, value := v }
   else if row.isSpecial then .ok { kind := .special, text := s, value := .none }
@@ -152,8 +152,8 @@ def resolveOperand (o : Operand) (row : InstrRow) (t : SymTab) : R Operand :=
         else
         match v with
         | .pyNone => .error .other                                -- None.is_numeric()
-        | .numeric i _ _ _ =>
-          if v.isDirect || o.value.isExplicitDirect then
+        | .numeric i _ _ ng =>
+          if !ng && (v.isDirect || o.value.isExplicitDirect) then
             (numericOfInt i none .direct).map (fun nv => { o with kind := .direct, value := nv })
           else .ok { o with kind := .extended, value := v }
         | .address _ _ =>
@@ -170,10 +170,23 @@ def regBits (right : Str) : Nat :=
 def is4Bit (i : Nat) (neg : Bool) : Bool := if neg then i ≤ 16 else i ≤ 15
 def is8Bit (i : Nat) (neg : Bool) : Bool := if neg then i ≤ 128 else i ≤ 127
 
-def regMaskPshPul (r : Str) : Nat :=
+/-- bit $40 stands for the OTHER stack pointer (`other` = "U" for PSHS/PULS, "S" for PSHU/PULU) -/
+def regMaskPshPul (other : Str) (r : Str) : Nat :=
   (if r == str "D" then 0x06 else 0) ||| (if r == str "CC" then 0x01 else 0) ||| (if r == str "A" then 0x02 else 0) |||
   (if r == str "B" then 0x04 else 0) ||| (if r == str "DP" then 0x08 else 0) ||| (if r == str "X" then 0x10 else 0) |||
-  (if r == str "Y" then 0x20 else 0) ||| (if r == str "U" then 0x40 else 0) ||| (if r == str "PC" then 0x80 else 0)
+  (if r == str "Y" then 0x20 else 0) ||| (if r == other then 0x40 else 0) ||| (if r == str "PC" then 0x80 else 0)
+
+/-- INDEX_REGISTER_REGEX: `-{0,2}[XYUS]`, `[XYUS]\+{1,2}` or `PCR` -/
+def isXYUS (c : Char) : Bool := c == 'X' || c == 'Y' || c == 'U' || c == 'S'
+def validIndexReg (right : Str) : Bool :=
+  match right with
+  | [c] => isXYUS c
+  | ['-', c] => isXYUS c
+  | ['-', '-', c] => isXYUS c
+  | [c, '+'] => isXYUS c
+  | [c, '+', '+'] => isXYUS c
+  | ['P', 'C', 'R'] => true
+  | _ => false
 
 def regCodeTfr (r : Str) : Nat :=
   (if r == str "X" then 1 else 0) ||| (if r == str "Y" then 2 else 0) ||| (if r == str "U" then 3 else 0) |||
@@ -193,9 +206,10 @@ def translateSpecial (o : Operand) (row : InstrRow) : R Pkg := do
   let mut post := 0
   if mn == "PSHS" || mn == "PSHU" || mn == "PULS" || mn == "PULU" then
     if o.text.isEmpty then throw .operandType
+    let (own, other) := if mn == "PSHS" || mn == "PULS" then (str "S", str "U") else (str "U", str "S")
     let regs := splitOn ',' o.text
-    if !(regs.all isReg) then throw .operandType
-    post := regs.foldl (fun acc r => acc ||| regMaskPshPul r) 0
+    if !(regs.all (fun r => isReg r && r != own)) then throw .operandType     -- an instruction cannot stack its own pointer
+    post := regs.foldl (fun acc r => acc ||| regMaskPshPul other r) 0
   if mn == "EXG" || mn == "TFR" then
     match splitOn ',' o.text with
     | [a, b] =>
@@ -228,7 +242,11 @@ def translateOffset (ind : Bool) (row : InstrRow) (left : Value) (right : Str) (
       return { opCode := op, postByte := pb, additional := l, size := size, maxSize := size + 2, needsRes := true,
                choices := [base + 0x0C, base + 0x0D] }
     else
-      let e := l.mode == .extended
+      -- an offset that does not fit a signed byte needs the 16-bit form however it was spelt (fix A9)
+      let e ← if l.mode == .extended then pure true else
+        (match l with
+         | .numeric i _ _ neg => pure (!(is4Bit i neg || is8Bit i neg))
+         | _ => throw .other)                                      -- no is_4_bit on other classes
       let sz := size + (if e then 2 else 1)
       let pb ← numV (raw0 ||| (if e then base + 0x0D else base + 0x0C))
       return { opCode := op, postByte := pb, additional := l, size := sz, maxSize := sz }
@@ -262,10 +280,13 @@ def translateOffset (ind : Bool) (row : InstrRow) (left : Value) (right : Str) (
 def translateIndexed (o : Operand) (row : InstrRow) : R Pkg := do
   if row.ind.isNone || row.ind == some 0 then throw .operandType
   let right ← match o.right with | some r => pure r | none => throw .other
+  if !validIndexReg right then throw .operandType                 -- "unknown index register" (fix A10)
+  if right == str "PCR" && (match o.left with | .text l => l.isEmpty || isABD l | _ => false) then
+    throw .operandType                                            -- "PCR needs an offset"
   let raw := regBits right
   let noOffset := match o.left with
     | .text [] => true
-    | .val (.numeric 0 _ _ _) => true
+    | .val (.numeric 0 _ _ _) => !(hasSub (str "PCR") right)      -- 0,PCR is an offset of 0 from the PC (fix A9)
     | _ => false
   let op ← opVal row.ind
   if noOffset then
@@ -294,11 +315,14 @@ def translateExtIndirect (o : Operand) (row : InstrRow) : R Pkg := do
   if o.value.isAddress || o.value.isNumeric then
     let pb ← numV 0x9F
     return { opCode := op, postByte := pb, additional := o.value, size := row.indSz + 2, maxSize := row.indSz + 2 }
-  let right ← match o.right with | some r => pure r | none => throw .other    -- "X" in NoneValue: TypeError
+  let right ← match o.right with | some r => pure r | none => throw .other    -- regex match on None: TypeError
+  if !validIndexReg right then throw .operandType                 -- "unknown index register" (fix A10)
+  if right == str "PCR" && (match o.left with | .text l => l.isEmpty || isABD l | _ => false) then
+    throw .operandType                                            -- "PCR needs an offset"
   let raw := 0x80 ||| regBits right
   let noOffset := match o.left with
     | .text [] => true
-    | .val (.numeric 0 _ _ _) => true
+    | .val (.numeric 0 _ _ _) => !(hasSub (str "PCR") right)      -- [0,PCR] is an offset of 0 from the PC (fix A9)
     | _ => false
   if noOffset then
     let mut raw := raw
